@@ -33,6 +33,39 @@ def run(ctx):
             if by_t[threads[0]][i] != spec[i]:
                 ctx.violation('C14:perft-deep', f'perft {depth} differs from the rules-of-chess count',
                               {'fen': posgen.fields_to_fen(g), 'game_fields': g, 'depth': depth, 'engine': by_t[threads[0]][i], 'specification': spec[i]}); break
+    # sparse positions (bare kings, blocked pawns, a single extra man): nodes with very few moves several plies above the leaves,
+    # where a parallel split / serial fallback threshold would show; deeper perft is cheap there
+    rng = ctx.rng
+    raw = []
+    for _ in range(40 if ctx.tier == 'quick' else 1500):
+        board = {}
+        ks = rng.sample([0, 7, 56, 63, 1, 8, 62, 55] + [rng.randrange(64) for _ in range(4)], 2)
+        board[ks[0]] = 'K'; board[ks[1]] = 'k'
+        for _ in range(rng.choice([0, 0, 1, 1, 2, 3])):
+            sq = rng.randrange(16, 48)
+            if rng.random() < 0.6:
+                if sq not in board and sq - 8 not in board: board[sq] = 'P'; board[sq - 8] = 'p'      # blocked pair
+            elif sq not in board:
+                board[sq] = rng.choice('PpNnBbRrQq')
+        raw.append(posgen.fields_from_board(board, rng.randrange(2), 0, 64, rng.randrange(0, 50), rng.randrange(1, 60)))
+    if ctx.model_ok:
+        rk = ctx.model_batch(['rekey ' + g for g in raw]); wfl = ctx.model_batch(['wf ' + g for g in rk])
+        sparse = sorted(set(g for g, ok in zip(rk, wfl) if ok == '1'))
+        sparse += [g for g in wfpos if bin(int(g.split()[14], 16)).count('1') <= 4][:20 if ctx.tier == 'quick' else 400]
+        sd = [4] if ctx.tier == 'quick' else [4, 5]
+        slines = [f'perft {d} {g}' for g in sparse for d in sd]
+        sthreads = [1, 4, 16] if ctx.tier == 'quick' else list(range(1, 17))
+        sby = {t: ctx.engine_batch(slines, shards=2 if t > 4 else 8, env={'RAYON_NUM_THREADS': str(t)}) for t in sthreads}
+        smod = ctx.model_batch(slines)
+        ctx.cov['sparse_positions'] = len(sparse); ctx.cov['sparse_depths'] = sd; ctx.cov['sparse_thread_counts'] = sthreads
+        ctx.cov['evaluations'] += len(slines) * len(sthreads)
+        for i, l in enumerate(slines):
+            vals = {t: sby[t][i] for t in sthreads}
+            if len(set(vals.values())) != 1 or vals[sthreads[0]] != smod[i]:
+                t = l.split(); g = ' '.join(t[2:])
+                ctx.violation('C14:thread-dependent' if len(set(vals.values())) != 1 else 'C14:perft-deep',
+                              'perft count depends on the number of worker threads' if len(set(vals.values())) != 1 else 'perft differs from the model of the sequential count (itself tied to the rules at depth <= 3)',
+                              {'fen': posgen.fields_to_fen(g), 'game_fields': g, 'depth': int(t[1]), 'counts_by_threads': vals, 'model': smod[i]}); break
     ctx.sample({'request': lines[0][:200], 'engine_by_threads': {t: by_t[t][0] for t in threads}, 'spec': spec[0] if spec else None})
 def replay(ctx, path):
     return chesscore.replay_pos(ctx, path, 'Props/C14.v')
